@@ -73,7 +73,10 @@ write_bigint_with_span = Fn(
 
 mark_span = Fn(F, "mark_span", impl="BitVec", props=["C12"],
                ensures=[C("one_span_recorded", SPAN_PUSHED % ("offset", "size"), ["C12"]),
-                        C("bits_kept", "final(self).data == old(self).data && final(self).len == old(self).len", ["C06"])])
+                        C("bits_kept", "final(self).data == old(self).data && final(self).len == old(self).len", ["C06"]),
+                        C("wf_kept", "old(self).wf() ==> final(self).wf()", ["C06"])],
+               inserts=[Insert("        self.spans.push(BitVecSpan {", "        let ghost before = self.v();\n", where="before"),
+                        Insert("            span,\n        });", "\n        proof { assert(self.v() == before); }\n", where="after")])
 
 to_bigint = Fn(
     F, "to_bigint", impl="BitVec", ret="res", props=["C11", "C03"],
